@@ -307,7 +307,9 @@ func a2(a, expr string) string {
 func nestingSpace(thorough bool) space {
 	type fam struct{ open, mid, close string }
 	fams := []fam{{"(", "1", ")"}, {"[", "1", "]"}, {"{\"a\":", "1", "}"}, {"!", "true", ""}, {"-", "1", ""}, {"if true {", "1", "}"}, {"f(", "1", ")"}, {"func() {", "1", "}"},
-		{"x[", "0", "]"}, {"1 + ", "1", ""}, {"a.", "b", ""}, {"{", "1", "}"}, {"for {", "break", "}"}, {"switch 1 { case 1:", "1", "}"}, {"'{", "1", "}'"}, {"try(", "1", ")"}, {"x := ", "1", ""}}
+		{"x[", "0", "]"}, {"1 + ", "1", ""}, {"a.", "b", ""}, {"{", "1", "}"}, {"for {", "break", "}"}, {"switch 1 { case 1:", "1", "}"}, {"'{", "1", "}'"}, {"try(", "1", ")"}, {"x := ", "1", ""},
+		// chains that the parser builds in a loop, not by recursion: the tree is as deep as the chain is long
+		{"", "x", ".a"}, {"", "x", "[0]"}, {"", "f", "()"}, {"", "x", " | f"}, {"", "1", " + 1"}, {"", "x", " == x"}, {"", "true", " && true"}, {"", "x", ".a()"}}
 	depths := []int{10, 100, 1000}
 	if thorough {
 		depths = append(depths, 10000, 100000, 1000000)
@@ -321,11 +323,15 @@ func nestingSpace(thorough bool) space {
 		// truncated): the parser's depth limit has to stop every one of them; the chains that
 		// the parser builds iteratively ("1 + ", "a.", "x := ") take minutes at that size and
 		// stay in the thorough tier
-		if f.open != "1 + " && f.open != "a." && f.open != "x := " {
+		if f.open != "x := " {
 			if !thorough {
 				srcs = append(srcs, strings.Repeat(f.open, 1000000)+f.mid+strings.Repeat(f.close, 1000000))
 			}
-			srcs = append(srcs, strings.Repeat(f.open, 1000000))
+			if f.open != "" {
+				srcs = append(srcs, strings.Repeat(f.open, 1000000))
+			} else {
+				srcs = append(srcs, f.mid+strings.Repeat(f.close, 4000000))
+			}
 		}
 	}
 	return space{"nesting", len(srcs), func(i int) string { return srcs[i] }}
@@ -637,7 +643,7 @@ func Check(r *ev.Run, replay string) {
 		sort.Strings(skipped)
 		r.Set("skipped_inputs", skipped)
 	}
-	r.Set("rule", "soup: every sequence of <= 3 (thorough 4) tokens over a 68-token alphabet; edits: every single-token deletion and duplication, and the insertion of a line break (thorough: also of ; , : ( ) { }) at every token gap, of every program of the function/container/error/closure families (every 6th program in quick); edits2: every ordered pair of single-token edits (delete, insert or replace by one of 7 - thorough 15 - separator and bracket tokens) of 42 one-statement seeds, one per syntactic form, each with a parenthesised operand; hostile: every default-global callable (exec, network modules and exit excluded) x hostile argument tuples (arity 0-2; thorough all pairs), every method name x hostile receiver x hostile argument, operators/interpolation/indexing on all pairs of 22 hostile values; volume: every default-global callable and every method of six receiver kinds called 300 times in one process with 300 distinct strings / integers in each argument position; nesting: 17 constructs nested 10..10^3 deep, the 14 that nest through the parser's recursion also 10^6 deep, complete and truncated (thorough: all 17 at 10..10^6); slots: 25 templates (unbounded recursion through every call path, a function literal with a compile error inside every kind of block, for, if, switch, func, call, index/slice, assignment, import/from, go/defer, map, list, operators, jumps in and out of context, string escapes/interpolations, channel operations, attributes, pipes, range and for-in headers, try, comments, number literals, ++/--) x every combination of 2-15 fillers per slot, each alone and after a prelude that defines the names; shared (thorough): map/set/list x every ordered pair of 5-10 operations x go/spawn x {unordered, thread.wait() first, channel hand-off first}, each scenario free-running in its own child built with -race - a report through the Go runtime map routines on an unordered scenario is the access pattern behind the fatal error concurrent map writes, ordered scenarios must be silent. Every input runs parse, String, compile, Eval (15 ms deadline, virtual OS), risor.Call of up to four of its global names, and the error formatters in a worker child; distinct = worker batches completed")
+	r.Set("rule", "soup: every sequence of <= 3 (thorough 4) tokens over a 68-token alphabet; edits: every single-token deletion and duplication, and the insertion of a line break (thorough: also of ; , : ( ) { }) at every token gap, of every program of the function/container/error/closure families (every 6th program in quick); edits2: every ordered pair of single-token edits (delete, insert or replace by one of 7 - thorough 15 - separator and bracket tokens) of 42 one-statement seeds, one per syntactic form, each with a parenthesised operand; hostile: every default-global callable (exec, network modules and exit excluded) x hostile argument tuples (arity 0-2; thorough all pairs), every method name x hostile receiver x hostile argument, operators/interpolation/indexing on all pairs of 22 hostile values; volume: every default-global callable and every method of six receiver kinds called 300 times in one process with 300 distinct strings / integers in each argument position; nesting: 25 constructs nested or chained 10..10^3 deep (prefix and bracket forms through the parser's recursion, operator / attribute / index / call / pipe chains through its loop), 24 of them also 10^6 deep (chains 4 x 10^6), complete and truncated (thorough: all at 10..10^6); slots: 25 templates (unbounded recursion through every call path, a function literal with a compile error inside every kind of block, for, if, switch, func, call, index/slice, assignment, import/from, go/defer, map, list, operators, jumps in and out of context, string escapes/interpolations, channel operations, attributes, pipes, range and for-in headers, try, comments, number literals, ++/--) x every combination of 2-15 fillers per slot, each alone and after a prelude that defines the names; shared (thorough): map/set/list x every ordered pair of 5-10 operations x go/spawn x {unordered, thread.wait() first, channel hand-off first}, each scenario free-running in its own child built with -race - a report through the Go runtime map routines on an unordered scenario is the access pattern behind the fatal error concurrent map writes, ordered scenarios must be silent. Every input runs parse, String, compile, Eval (15 ms deadline, virtual OS), risor.Call of up to four of its global names, and the error formatters in a worker child; distinct = worker batches completed")
 }
 
 var frameRe = regexp.MustCompile(`github.com/risor-io/risor/([a-zA-Z0-9_/]+)\.(\(\*?[A-Za-z0-9_]+\)\.)?([A-Za-z0-9_]+)`)
